@@ -183,6 +183,14 @@ Definition store_view (Sc : schema) (root : ty) (v : value) : sx :=
     | Some e => row live_a (snd e)
     | None => L []
     end in
+  (* the settings of a Config that the file carries and the API can read back *)
+  let cfgv := fun (c : tv) =>
+    L [ of_bool (flag (g c (i_ "generate_ids"))); of_bool (flag (g c (i_ "strip_temp_ids")));
+        of_bool (flag (g c (i_ "use_include"))); of_nat (num (g c (i_ "milestone_interval")));
+        of_bool (flag (g c (i_ "textrelationmap"))); of_bool (flag (g c (i_ "resource_annotation_metamap")));
+        of_bool (flag (g c (i_ "dataset_annotation_metamap"))); of_bool (flag (g c (i_ "annotation_annotation_map")));
+        of_bool (flag (g c (i_ "key_annotation_metamap"))); of_bool (flag (g c (i_ "data_annotation_metamap")));
+        opt_bytes (g c (i_ "workdir")) ] in
   let trm := relmap_rows Sc (g st (i_ "textrelationmap")) in
   let ddam := relmap_rows Sc (g st (i_ "dataset_data_annotation_map")) in
   let ramm := relmap_rows Sc (g st (i_ "resource_annotation_metamap")) in
@@ -225,7 +233,8 @@ Definition store_view (Sc : schema) (root : ty) (v : value) : sx :=
                                   L [ of_nat (num (fst e)); of_nat (num (g it (i_ "bytepos")));
                                       L (map (fun p => of_nats (map num (elems p))) (elems (g it (i_ "begin2end"))));
                                       L (map (fun p => of_nats (map num (elems p))) (elems (g it (i_ "end2begin")))) ])
-                               (entries (g r (i_ "positionindex")))) ]
+                               (entries (g r (i_ "positionindex"))));
+                        cfgv (g r (i_ "config")) ]
                 end) (combine (seq 0 (length ress)) ress));
       (* datasets *)
       L (map (fun ih =>
@@ -264,8 +273,10 @@ Definition store_view (Sc : schema) (root : ty) (v : value) : sx :=
                                           row live_a (nth_row ddrows (fst jd));
                                           row live_a (nth_row dmrows (fst jd)) ]
                                   end) (combine (seq 0 (length data)) data));
-                        row live_a (nth_row damm (fst ih)) ]
-                end) (combine (seq 0 (length sets)) sets)) ].
+                        row live_a (nth_row damm (fst ih));
+                        cfgv (g s (i_ "config")) ]
+                end) (combine (seq 0 (length sets)) sets));
+      cfgv (g st (i_ "config")) ].
 
 Definition run_C11 (x : sx) : sx :=
   let secs := sx_list (sx_nth 0 x) in
